@@ -147,6 +147,81 @@ func TrackFile(f *os.File, err error) (*os.File, error) {
 	x := X
 	if x != nil && f != nil {
 		x.cleanup = append(x.cleanup, func() { f.Close() })
+		NoteFdOwner(int(f.Fd()), curProc())
+		x.files = append(x.files, trackedFile{f, curProc()})
 	}
 	return f, err
 }
+
+type trackedFile struct {
+	f    *os.File
+	proc int
+}
+
+func curProc() int {
+	if X != nil && X.cur != nil {
+		return X.cur.Proc
+	}
+	return 0
+}
+
+// NoteFdOwner records which "process" (thread tag) a descriptor belongs to. Descriptor numbers are reused, so the
+// latest note wins.
+func NoteFdOwner(fd, proc int) {
+	x := X
+	if x == nil || fd < 0 {
+		return
+	}
+	if x.fdOwner == nil {
+		x.fdOwner = map[int]int{}
+	}
+	x.fdOwner[fd] = proc
+}
+
+// FdOwner returns the recorded owner of a descriptor (0 = unknown / harness).
+func FdOwner(fd int) int {
+	x := X
+	if x == nil {
+		x = cleaning
+	}
+	if x == nil {
+		return 0
+	}
+	return x.fdOwner[fd]
+}
+
+// TrackedFiles lists the *os.File objects the given process obtained through tracked calls.
+func TrackedFiles(proc int) []*os.File {
+	x := X
+	if x == nil {
+		return nil
+	}
+	var out []*os.File
+	for _, t := range x.files {
+		if t.proc == proc {
+			out = append(out, t.f)
+		}
+	}
+	return out
+}
+
+// TrackFd wraps a call that returns a new descriptor (memfd_create).
+func TrackFd(fd int, err error) (int, error) {
+	if err == nil {
+		NoteFdOwner(fd, curProc())
+	}
+	return fd, err
+}
+
+// TrackFds wraps a call that returns received descriptors (SCM_RIGHTS).
+func TrackFds(fds []int, err error) ([]int, error) {
+	if err == nil {
+		for _, fd := range fds {
+			NoteFdOwner(fd, curProc())
+		}
+	}
+	return fds, err
+}
+
+// SwitchHook, when set, runs whenever another thread is about to run (per-"process" global state is swapped here).
+var SwitchHook func(proc int)
